@@ -616,6 +616,10 @@ def no_positional_turn(repo, rep):
 
 
 def run(repo, rep, tier):
+    rep.rule("R-C12-11", "direction / frequency grids built with arange / linspace keep NumPy's own (float) dtype or a literal float dtype: a dtype borrowed "
+                         "from a data variable truncates a fractional step, placing the spectra on wrong directions")
+    from .round7 import grid_dtype_from_data
+    grid_dtype_from_data(repo, rep, "R-C12-11")
     unconditional_factors(repo, rep)
     rep.rule("R-C12-5", "every parameter of the functions behind this property is read (model-native converters): none is accepted and then ignored, and no control parameter (cutoff, limit, tolerance, window, count, switch) is replaced by another value before use (coercion and default filling aside)")
     from .shared import unused_parameters
